@@ -105,7 +105,7 @@ func applyOp(files map[string]string, i int, op string, lvl int) map[string]stri
 }
 
 func initialFiles() map[string]string {
-	return map[string]string{"src/a.c": "int a;\n", "src/b.c": "int b;\r\n", "README": ""}
+	return map[string]string{"src/a.c": "int a;\n", "src/b.c": "int b;\r\n", "README": "", "stamp.txt": "AAAA"}
 }
 
 // ---------- building the layout ----------
@@ -137,7 +137,7 @@ func buildLayout(sc *Scn, runDirPrefix string) intoto.Layout {
 			l.Keys[k.KeyID] = k
 		}
 		if i == 0 {
-			s.ExpectedMaterials = [][]string{{"ALLOW", markerize("src/*", sc.Params)}, {"ALLOW", "README"}, {"DISALLOW", "*"}}
+			s.ExpectedMaterials = [][]string{{"ALLOW", markerize("src/*", sc.Params)}, {"ALLOW", "README"}, {"ALLOW", "stamp.txt"}, {"DISALLOW", "*"}}
 		} else {
 			s.ExpectedMaterials = [][]string{{"MATCH", "*", "WITH", "PRODUCTS", "FROM", sc.Steps[i-1].Name}, {"DISALLOW", "*"}}
 		}
@@ -172,6 +172,10 @@ func buildLayout(sc *Scn, runDirPrefix string) intoto.Layout {
 			pre = runDirPrefix + "/"
 		}
 		x.ExpectedMaterials = [][]string{{"REQUIRE", pre + "README"}, m, {"ALLOW", pre + "*.link"}, {"ALLOW", pre + "*.tmp"}, {"DISALLOW", "*"}}
+		if sc.Defect == "require-after-consume" {
+			// REQUIRE looks at the queue: after MATCH * consumed the file it is no longer there
+			x.ExpectedMaterials = [][]string{m, {"REQUIRE", pre + "README"}, {"ALLOW", pre + "*.link"}, {"DISALLOW", "*"}}
+		}
 		x.ExpectedProducts = [][]string{m, {"ALLOW", pre + "*.link"}, {"ALLOW", pre + "*.tmp"}, {"DISALLOW", "*"}}
 		l.Inspect = append(l.Inspect, x)
 	}
@@ -196,6 +200,9 @@ func inspCommand(in InspSpec) []string {
 		return []string{"sh", "-c", "echo " + in.Name + " >> " + logPath + "; echo x > " + in.Arg}
 	case "fail":
 		return []string{"sh", "-c", "echo " + in.Name + " >> " + logPath + "; exit " + in.Arg}
+	case "rewrite":
+		// same size, same mtime, other content
+		return []string{"sh", "-c", "echo " + in.Name + " >> " + logPath + "; printf BBBB > " + in.Arg + " && touch -d @1577836800 " + in.Arg}
 	case "missing":
 		return []string{"/nonexistent/verif-no-such-binary", in.Name}
 	case "empty":
@@ -453,13 +460,15 @@ func baseScenario(r *lib.Rng, focus string, level int) *Scn {
 var defects = map[string][]string{
 	"c01": {"none", "none", "alter-expires", "alter-readme", "alter-threshold", "alter-rule", "alter-command", "alter-insp-run", "alter-keys",
 		"alter-pubkeys", "drop-signature", "corrupt-signature", "dup-signature", "reorder-signatures", "forged-keyid", "extra-foreign-signature",
-		"verifier-plus-one", "verifier-minus-one", "verifier-empty", "signed-by-others", "link-instead-of-layout"},
-	"c05": {"none", "disagree-product-digest", "disagree-product-path", "disagree-material-digest", "disagree-algorithm", "junk-uncounted-badsig",
-		"junk-uncounted-unauthorised", "extra-agreeing-link", "byproducts-differ"},
+		"verifier-plus-one", "verifier-minus-one", "verifier-empty", "signed-by-others", "link-instead-of-layout",
+		"dup-signature-missing-key", "keyid-collision-history"},
+	"c05": {"none", "disagree-product-digest", "disagree-product-path", "disagree-material-digest", "disagree-algorithm", "disagree-algorithm-material",
+		"junk-uncounted-badsig", "junk-uncounted-unauthorised", "extra-agreeing-link", "byproducts-differ",
+		"threshold1-disagree-product-digest", "threshold1-disagree-algorithm", "threshold1-agree"},
 	"c06": {"none", "expired-long", "expired-2s", "future-1h", "garbage", "empty", "rfc3339-offset", "date-only", "year-9999", "fraction", "lowercase"},
-	"c08": {"sub-ok", "sub-ok", "sub-badsig", "sub-expired", "sub-missing-link", "sub-rule-violation", "sub-unauthorised", "sub-nested", "sub-nested-defect", "sub-summary-mismatch"},
+	"c08": {"sub-defective-beside-good-link", "sub-ok", "sub-ok", "sub-badsig", "sub-expired", "sub-missing-link", "sub-rule-violation", "sub-unauthorised", "sub-nested", "sub-nested-defect", "sub-summary-mismatch"},
 	"c10": {"history-same-params", "history-diff-params", "history-no-params", "history-mixed", "mixed-cert-key", "mixed-cert-key", "summary-byproducts", "direct-unclean"},
-	"c09": {"none", "insp-fail", "insp-fail-255", "insp-missing", "insp-empty", "product-modified", "product-added", "product-removed",
+	"c09": {"insp-rewrite-same-mtime", "product-all-removed", "require-after-consume", "none", "insp-fail", "insp-fail-255", "insp-missing", "insp-empty", "product-modified", "product-added", "product-removed",
 		"insp-touch-allowed", "insp-touch-disallowed", "three-inspections", "second-fails"},
 }
 
@@ -495,6 +504,22 @@ func genScenario(r *lib.Rng, focus string) *Scn {
 				sc.Owners = []string{pool[0], pool[3]}
 			}
 			sc.Verifiers = sc.Owners[:1]
+		case "dup-signature-missing-key":
+			// signed by one owner only, whose signature entry is present twice; the verifier also supplies a second key
+			sc.Owners = sc.Owners[:1]
+			for _, p := range pool {
+				if !contains(sc.Owners, p) {
+					sc.Verifiers = append(append([]string{}, sc.Owners...), p)
+					break
+				}
+			}
+			sc.Expect = "reject"
+		case "keyid-collision-history":
+			// signed by an outsider whose signature entry claims the owner's key id; verified with the owner's real key.
+			// Earlier in the same process a key object carrying the owner's ID but the outsider's material was used.
+			sc.Owners = sc.Owners[:1]
+			sc.Verifiers = append([]string{}, sc.Owners...)
+			sc.Expect = "reject"
 		case "verifier-plus-one":
 			for _, p := range pool {
 				if !contains(sc.Owners, p) {
@@ -525,7 +550,11 @@ func genScenario(r *lib.Rng, focus string) *Scn {
 	case "c05":
 		i := r.Intn(len(sc.Steps))
 		needTwo(i)
-		sc.DefectArg = strconv.Itoa(i)
+		sc.DefectArg = strconv.Itoa(i) + ":" + strconv.Itoa(r.Intn(2)) // step index : which of the two links is altered
+		if strings.HasPrefix(d, "threshold1-") {
+			// more counted links than the threshold requires: they must still all agree
+			sc.Steps[i].Threshold = 1
+		}
 		if d == "junk-uncounted-badsig" || d == "extra-agreeing-link" {
 			// a third authorised key: it does not produce a link (junk case) or produces an agreeing one
 			st := &sc.Steps[i]
@@ -540,7 +569,7 @@ func genScenario(r *lib.Rng, focus string) *Scn {
 			}
 		}
 		switch d {
-		case "none", "junk-uncounted-badsig", "junk-uncounted-unauthorised", "extra-agreeing-link", "byproducts-differ":
+		case "none", "junk-uncounted-badsig", "junk-uncounted-unauthorised", "extra-agreeing-link", "byproducts-differ", "threshold1-agree":
 		default:
 			sc.Expect = "reject"
 		}
@@ -595,6 +624,25 @@ func genScenario(r *lib.Rng, focus string) *Scn {
 		sc.ExpectLog = append([]string{"subinsp"}, sc.ExpectLog...)
 		switch d {
 		case "sub-ok":
+		case "sub-defective-beside-good-link":
+			// two authorised functionaries, threshold 1: one hands in a good link, the other an EXPIRED sublayout.
+			// Any failure inside a sublayout fails the whole verification.
+			for len(st.Keys) < 2 {
+				for _, p := range pool {
+					if !contains(st.Keys, p) {
+						st.Keys = append(st.Keys, p)
+						break
+					}
+				}
+			}
+			sort.Strings(st.Keys)
+			st.Signers = append([]string{}, st.Keys[:2]...)
+			st.Threshold = 1
+			st.SubSigner = st.Signers[1]
+			sub.Owners = []string{st.SubSigner}
+			sub.Expires = "2001-01-01T00:00:00Z"
+			sc.Expect = "reject"
+			sc.ForbidLog = []string{"subinsp"}
 		case "sub-unauthorised":
 			// the sublayout is offered by a key that is NOT authorised for the step; another functionary satisfies the threshold
 			var outsider string
@@ -633,7 +681,7 @@ func genScenario(r *lib.Rng, focus string) *Scn {
 		default:
 			sc.Expect = "reject"
 		}
-		if sc.Expect == "reject" {
+		if sc.Expect == "reject" && d != "sub-defective-beside-good-link" {
 			// the sublayout is the only evidence for that step unless threshold is met otherwise: force it to be needed
 			st.Threshold = len(st.Signers)
 		}
@@ -693,6 +741,18 @@ func genScenario(r *lib.Rng, focus string) *Scn {
 				sc.Insps = []InspSpec{{Name: "insp0", Kind: "log"}}
 			}
 			sc.Expect = "reject"
+		case "insp-rewrite-same-mtime":
+			// the command rewrites a final product with content of the same length and restores its mtime:
+			// the products recorded AFTER the command must show the new content, so the MATCH rule no longer consumes it
+			sc.Insps = []InspSpec{{Name: "insp0", Kind: "rewrite", Arg: "stamp.txt"}}
+			sc.Expect = "reject"
+		case "product-all-removed":
+			sc.Insps = []InspSpec{{Name: "insp0", Kind: "log"}}
+			sc.Entry = "plain"
+			sc.Expect = "reject"
+		case "require-after-consume":
+			sc.Insps = []InspSpec{{Name: "insp0", Kind: "log"}}
+			sc.Expect = "reject"
 		case "insp-touch-allowed":
 			sc.Insps = []InspSpec{{Name: "insp0", Kind: "touch", Arg: "made.tmp"}, {Name: "insp1", Kind: "log"}}
 		case "insp-touch-disallowed":
@@ -710,6 +770,12 @@ func genScenario(r *lib.Rng, focus string) *Scn {
 		}
 	}
 	return sc
+}
+
+// kindSame: both names denote keys of the same type (so that a key id label can be moved between them plausibly)
+func kindSame(a, b string) bool {
+	ka, kb := pk(a).Pub.KeyType, pk(b).Pub.KeyType
+	return ka == kb
 }
 
 func contains(xs []string, x string) bool {
@@ -783,17 +849,28 @@ func materialise(sc *Scn, root string, r *lib.Rng) *world {
 		final["backdoor.sh"] = "#!/bin/sh"
 	case "product-removed":
 		delete(final, "README")
+	case "product-all-removed":
+		final = map[string]string{}
 	}
 	for p, c := range final {
 		fp := filepath.Join(w.prodDir, p)
 		os.MkdirAll(filepath.Dir(fp), 0o755)
 		os.WriteFile(fp, []byte(c), 0o644)
+		os.Chtimes(fp, time.Unix(1577836800, 0), time.Unix(1577836800, 0)) // fixed mtime (as reproducible builds do)
 	}
 	w.final = final
 	return w
 }
 
-func stepIndex(sc *Scn) int { i, _ := strconv.Atoi(sc.DefectArg); return i }
+func stepIndex(sc *Scn) int { i, _ := strconv.Atoi(strings.Split(sc.DefectArg, ":")[0]); return i }
+func whichLink(sc *Scn) int {
+	p := strings.Split(sc.DefectArg, ":")
+	if len(p) < 2 {
+		return 1
+	}
+	i, _ := strconv.Atoi(p[1])
+	return i
+}
 
 func applyLinkDefects(sc *Scn, w *world, r *lib.Rng) {
 	if sc.Focus == "c08" {
@@ -806,7 +883,7 @@ func applyLinkDefects(sc *Scn, w *world, r *lib.Rng) {
 		return
 	}
 	st := sc.Steps[stepIndex(sc)]
-	second := pk(st.Signers[1])
+	second := pk(st.Signers[whichLink(sc)])
 	p := filepath.Join(w.linkDir, linkFile(st.Name, second.Pub.KeyID))
 	resign := func(f func(l *intoto.Link)) {
 		m, err := intoto.LoadMetadata(p)
@@ -821,9 +898,14 @@ func applyLinkDefects(sc *Scn, w *world, r *lib.Rng) {
 		ks := lib.SortedKeys(m)
 		return ks[len(ks)-1]
 	}
-	switch sc.Defect {
+	switch strings.TrimPrefix(sc.Defect, "threshold1-") {
 	case "disagree-product-digest":
 		resign(func(l *intoto.Link) { l.Products[anyKey(l.Products)] = hobj("something else") })
+	case "disagree-algorithm-material":
+		resign(func(l *intoto.Link) {
+			k := anyKey(l.Materials)
+			l.Materials[k] = intoto.HashObj{"sha256": l.Materials[k]["sha256"], "sha512": "00"}
+		})
 	case "disagree-product-path":
 		resign(func(l *intoto.Link) { k := anyKey(l.Products); l.Products[k+".x"] = l.Products[k]; delete(l.Products, k) })
 	case "disagree-material-digest":
@@ -990,8 +1072,49 @@ func applyLayoutDefects(sc *Scn, w *world, r *lib.Rng) {
 				s["sig"] = v[:len(v)/2] + c + v[len(v)/2+1:]
 			}
 		})
-	case "dup-signature":
+	case "dup-signature", "dup-signature-missing-key":
 		editJSON(p, func(wr, pl map[string]interface{}) { wr["signatures"] = append(sigs(wr), sigs(wr)[0]) })
+	case "keyid-collision-history":
+		var outsider string
+		if sc.DefectArg != "" {
+			outsider = sc.DefectArg
+		}
+		for _, pn := range pool {
+			if outsider != "" {
+				break
+			}
+			if !contains(sc.Owners, pn) && kindSame(pn, sc.Owners[0]) {
+				outsider = pn
+				break
+			}
+		}
+		if outsider == "" {
+			for _, pn := range pool {
+				if !contains(sc.Owners, pn) {
+					outsider = pn
+					break
+				}
+			}
+		}
+		ownerID := pk(sc.Owners[0]).Pub.KeyID
+		// the layout as signed by the outsider, signature labelled with the owner's key id
+		lm, err := intoto.LoadMetadata(p)
+		must(err)
+		m := wrap(sc, lm.GetPayload())
+		mustSign(m, pk(outsider).Priv)
+		must(m.Dump(p))
+		editJSON(p, func(wr, pl map[string]interface{}) {
+			for _, sg := range sigs(wr) {
+				sg.(map[string]interface{})["keyid"] = ownerID
+			}
+		})
+		// history: a key object with the owner's ID and the outsider's material verifies that file (genuine behaviour:
+		// a key id is only a label) - this must not influence the later verification under the owner's real key
+		fake := pk(outsider).Pub
+		fake.KeyID = ownerID
+		if lm2, err := intoto.LoadMetadata(p); err == nil {
+			_ = lm2.VerifySignature(fake)
+		}
 	case "reorder-signatures":
 		editJSON(p, func(wr, pl map[string]interface{}) {
 			s := sigs(wr)
@@ -1345,6 +1468,10 @@ func coqHistory(sc *Scn, w *world) string {
 func coqModel(sc *Scn, w *world) string { return coqModelP(sc, w, sc.Params) }
 
 func coqModelP(sc *Scn, w *world, params map[string]string) string {
+	return coqModelAt(sc, w, params, time.Now().UnixNano())
+}
+
+func coqModelAt(sc *Scn, w *world, params map[string]string, nowNs int64) string {
 	dir := lib.ReadLinkDir(w.linkDir, "")
 	var truths []string
 	add := func(tag, path string, m intoto.Metadata) {
@@ -1394,7 +1521,7 @@ func coqModelP(sc *Scn, w *world, params map[string]string) string {
 	var collect func(s *Scn)
 	collect = func(s *Scn) {
 		for _, in := range s.Insps {
-			kind := map[string]string{"log": "CLog", "touch": "(CTouch " + lib.CoqStr(in.Arg) + " " + lib.CoqStr(sha("x\n")) + ")", "fail": "(CFail " + in.Arg + "%Z)", "missing": "CMissing", "empty": "CLog"}[in.Kind]
+			kind := map[string]string{"log": "CLog", "rewrite": "(CTouch " + lib.CoqStr(in.Arg) + " " + lib.CoqStr(sha("BBBB")) + ")", "touch": "(CTouch " + lib.CoqStr(in.Arg) + " " + lib.CoqStr(sha("x\n")) + ")", "fail": "(CFail " + in.Arg + "%Z)", "missing": "CMissing", "empty": "CLog"}[in.Kind]
 			cmds = append(cmds, lib.CoqPair(lib.CoqStrList(inspCommand(in)), kind))
 		}
 		for _, st := range s.Steps {
@@ -1408,7 +1535,7 @@ func coqModelP(sc *Scn, w *world, params map[string]string) string {
 	if sc.Entry == "dir" {
 		prefix = w.prodDir
 	}
-	return "(e2e_run " + strconv.FormatInt(time.Now().UnixNano(), 10) + "%Z " +
+	return "(e2e_run " + strconv.FormatInt(nowNs, 10) + "%Z " +
 		lib.CoqList(truths, "str * str") + " " + lib.CoqList(tc, "str * key") + " " + lib.CoqList(tcc, "str * str") + " " +
 		lib.CoqList(cmds, "list str * cmdkind") + " " +
 		lib.CoqStr(prefix) + " " + lib.CoqList(files, "str * str") + " " +
@@ -1432,6 +1559,35 @@ func main() {
 		wr, err := lib.NewWriter(os.Args[3])
 		must(err)
 		r := lib.NewRng(lib.Seed()*31 + uint64(len(focus))*7 + uint64(focus[2]))
+		if focus == "c01" {
+			// history with a colliding key id, run FIRST in the process with two keys used nowhere else: a key object
+			// labelled with the owner's id but holding another key's material is used before the owner's real key
+			for _, wrapper := range []string{"legacy", "dsse"} {
+				rr := r.Fork()
+				sc := baseScenario(rr, focus, 0)
+				sc.Wrapper, sc.Entry = wrapper, "plain"
+				sc.Defect, sc.Klass, sc.Seed = "keyid-collision-history", "c01/keyid-collision-first-use", lib.Seed()
+				sc.Owners = []string{"ed-c01-owner-" + wrapper}
+				sc.Verifiers = []string{"ed-c01-owner-" + wrapper}
+				sc.DefectArg = "ed-c01-outsider-" + wrapper
+				sc.Expect = "reject"
+				if len(sc.Insps) == 0 {
+					sc.Insps = []InspSpec{{Name: "insp0", Kind: "log"}}
+				}
+				sc.ExpectLog = nil
+				root := filepath.Join(work, "run-collision-"+wrapper)
+				w := materialise(sc, root, rr)
+				o := runImpl(sc, w)
+				cleanInspectionLinks(w)
+				impl := o.String()
+				oracle := impl
+				if v := oracleViolations(sc, o); v != "" {
+					oracle = "VIOLATES: " + v
+				}
+				wr.Put(lib.Case{Klass: sc.Klass, Input: lib.MustJSON(sc), Impl: impl, Oracle: oracle, CoqModel: coqModel(sc, w)})
+				os.RemoveAll(root)
+			}
+		}
 		for i := 0; i < n; i++ {
 			rr := r.Fork()
 			sc := genScenario(rr, focus)
@@ -1467,6 +1623,35 @@ func main() {
 			}
 			c := lib.Case{Klass: sc.Klass, Input: lib.MustJSON(sc), Impl: impl, Oracle: oracle, CoqModel: coqModel(sc, w)}
 			wr.Put(c)
+			os.RemoveAll(root)
+		}
+		if focus == "c06" {
+			// a layout that expires while the process lives: accepted before, rejected after its expiry
+			rr := r.Fork()
+			sc := baseScenario(rr, focus, 0)
+			sc.Defect, sc.Klass, sc.Seed = "expires-between-verifications", "c06/expires-between-verifications", lib.Seed()
+			sc.Entry = "plain"
+			sc.Insps = []InspSpec{{Name: "insp0", Kind: "log"}}
+			exp := time.Now().Add(3 * time.Second).UTC().Truncate(time.Second)
+			sc.Expires = exp.Format(intoto.ISO8601DateSchema)
+			root := filepath.Join(work, "run-expiring")
+			w := materialise(sc, root, rr)
+			t1 := time.Now()
+			o1 := runImpl(sc, w)
+			cleanInspectionLinks(w)
+			m1 := coqModelAt(sc, w, sc.Params, t1.UnixNano())
+			time.Sleep(time.Until(exp.Add(1500 * time.Millisecond)))
+			t2 := time.Now()
+			o2 := runImpl(sc, w)
+			cleanInspectionLinks(w)
+			m2 := coqModelAt(sc, w, sc.Params, t2.UnixNano())
+			impl := o1.String() + ";" + o2.String()
+			oracle := impl
+			if o1.Verdict != "accept" || o2.Verdict != "reject" || len(o2.Log) > 0 {
+				oracle = fmt.Sprintf("VIOLATES: layout expiring at %s must be accepted at %s and rejected (no inspection run) at %s; got %s then %s",
+					sc.Expires, t1.UTC().Format(time.RFC3339), t2.UTC().Format(time.RFC3339), o1.Verdict, o2.Verdict)
+			}
+			wr.Put(lib.Case{Klass: sc.Klass, Input: lib.MustJSON(sc), Impl: impl, Oracle: oracle, CoqModel: "(" + m1 + " ++ [59] ++ " + m2 + ")"})
 			os.RemoveAll(root)
 		}
 		wr.Close()
